@@ -100,6 +100,11 @@ struct result
 // Reads behaviours (one JSON value per line) from `path`, calls fn on each
 // (skipping the first `skip`), prints one result line per behaviour to stdout
 // and flushes, so that a crash leaves the index of the culprit visible.
+// result lines go to this stream (stdout unless a subcommand redirected the library's own printf noise)
+extern std::FILE* g_out;
+// from now on result lines go to the original stdout while stdout itself is sent to /dev/null
+void silence_library_stdout();
+
 int for_each_behaviour(std::string const& path, std::size_t skip
 	, std::function<result(std::size_t, json::value const&)> const& fn);
 
